@@ -55,6 +55,12 @@ def _immutable(tags) -> bool:
     return True
 
 
+def _dbg(cname, f, why):
+    import os
+    if os.environ.get("G3DSA_DEBUG_MEMO"):
+        print("memo: %s.%s rejected: %s" % (cname, f, why))
+
+
 def _self_attr(n: ast.AST, sn: str):
     if isinstance(n, ast.Attribute) and isinstance(n.value, ast.Name) and n.value.id == sn:
         return n.attr
@@ -112,6 +118,10 @@ def memo_fields(ctx) -> Dict[Tuple[str, str], str]:
             invalidators: Set[str] = set()
             why = ""
             for fi, t, v in sts:
+                if fi.cls is not None and fi.cls is not c and fi.self_name is not None \
+                        and _self_attr(t if not isinstance(t, ast.Subscript) else _base(t), fi.self_name) == f \
+                        and c not in fi.cls.mro() and fi.cls not in c.mro():
+                    continue  # the same attribute name on the objects of an unrelated class: another field
                 if fi.cls is not c or fi.self_name is None or _self_attr(t if not isinstance(t, ast.Subscript) else _base(t), fi.self_name) != f:
                     ok, why = False, "stored from outside the class"
                     break
@@ -156,8 +166,24 @@ def memo_fields(ctx) -> Dict[Tuple[str, str], str]:
                 else:
                     accessors.add(fi.qual)
             if not ok or not accessors:
+                _dbg(c.name, f, why or "no accessor")
                 continue
             invalidators |= {q for q in deleters.get(f, ()) if eng.fn_by_qual[q].cls is c}
+            # a mutator that calls an invalidating method on itself (`self._forget_measures()`) invalidates too
+            grew = True
+            while grew:
+                grew = False
+                for m_ in c.methods.values():
+                    if m_.qual in invalidators or m_.self_name is None:
+                        continue
+                    for x in walk_local(m_.node):
+                        if isinstance(x, ast.Call) and isinstance(x.func, ast.Attribute) and isinstance(x.func.value, ast.Name) \
+                                and x.func.value.id == m_.self_name:
+                            tgt = c.lookup(x.func.attr)
+                            if tgt is not None and tgt.qual in invalidators and tgt.qual not in accessors:
+                                invalidators.add(m_.qual)
+                                grew = True
+                                break
             # M3 reads
             for fi, n in loads.get(f, []):
                 if fi.qual in accessors or fi.qual in invalidators:
@@ -170,6 +196,7 @@ def memo_fields(ctx) -> Dict[Tuple[str, str], str]:
                 ok, why = False, "read by %s" % fi.short
                 break
             if not ok:
+                _dbg(c.name, f, why)
                 continue
             # M4 exposure
             ty = eng.fields.get((c.name, f), frozenset())
@@ -183,6 +210,7 @@ def memo_fields(ctx) -> Dict[Tuple[str, str], str]:
                         if exposes and not _immutable(ty):
                             ok, why = False, "%s hands the cached mutable object to its caller" % fi.short
             if not ok:
+                _dbg(c.name, f, why)
                 continue
             # M6 tolerance
             from .rules.c15 import cond_deps
@@ -196,14 +224,38 @@ def memo_fields(ctx) -> Dict[Tuple[str, str], str]:
                 visited: List[ast.AST] = []
                 cond_deps(ctx, g_, v_, visited)
                 if any(eng.targets_in(g_, x) & tol for x in visited):
-                    ok, why = False, "the cached value depends on the tolerance configuration"
+                    # ... unless the accessor re-validates what it remembered against a key that reads the tolerance itself:
+                    #     if remembered[0] != (..., get_eps()): recompute
+                    from .astutil import assigned_names
+                    sd_ = {nm_: ast.Tuple(elts=[d_.value for d_ in defs_ if isinstance(d_, ast.Assign)], ctx=ast.Load())
+                           for nm_, defs_ in assigned_names(g_.node).items()}
+                    keyed = False
+                    for cmp_ in walk_local(g_.node):
+                        if not (isinstance(cmp_, ast.Compare) and len(cmp_.ops) == 1 and isinstance(cmp_.ops[0], (ast.Eq, ast.NotEq))):
+                            continue
+                        for memo_side, key_side in ((cmp_.left, cmp_.comparators[0]), (cmp_.comparators[0], cmp_.left)):
+                            base_ = memo_side
+                            while isinstance(base_, ast.Subscript):
+                                base_ = base_.value
+                            reads_memo = _self_attr(base_, g_.self_name) == f or (
+                                isinstance(base_, ast.Name) and base_.id in sd_ and any(_self_attr(y, g_.self_name) == f for y in ast.walk(sd_[base_.id])))
+                            if not reads_memo or not isinstance(memo_side, ast.Subscript):
+                                continue
+                            kv: List[ast.AST] = []
+                            cond_deps(ctx, g_, key_side, kv)
+                            if any(eng.targets_in(g_, x) & tol for x in kv):
+                                keyed = True
+                    if not keyed:
+                        ok, why = False, "the cached value depends on the tolerance configuration"
             if not ok:
+                _dbg(c.name, f, why)
                 continue
             # M5 staleness
             k = ctx.transl.field_kind(c.name, f)
             muts = [m for m in c.methods.values() if m.name in MUTATORS]
             refreshed = all(m.qual in invalidators for m in muts) if muts else True
             if not (invariant(k) or refreshed):
+                _dbg(c.name, f, "neither translation invariant (%s) nor re-assigned by every mutator" % (k,))
                 continue
             out[(c.name, f)] = "memo field (%s; %s)" % (
                 "accessors: " + ", ".join(sorted(q.split(":")[-1] for q in accessors)),
